@@ -656,6 +656,40 @@ def run(report, p):
                         r10.check(False, f, e, f"`{norm(e)[:50]}` is tested for truth, and its class {base.split('.')[-1]} defines {special[base]}: the test no longer means 'there is one' but 'it is not empty'", construct=f"truth test of {base.split('.')[-1]} instance: {norm(e)[:40]}")
     r10.check(True, None, None, "")
 
+    # ------------------------------------------------------------------ R3.12
+    r12 = report.rule(
+        "R3.12",
+        "verify and diff count every traversed file for which the history holds no original entry as a new file: the counter that decides exit 21 is raised, "
+        "on the branch `<result of find_original_hash_entry_for_path> is None`, in every function that looks the original entry up during a traversal",
+        2,
+    )
+    for fq, f in sorted(p.funcs.items()):
+        if not f.module.name.endswith("commands"):
+            continue
+        lookups = [c for c, tg in p.calls[fq] if any(t.endswith("find_original_hash_entry_for_path") for t in tg)]
+        exc_tests = [n for n in walk_no_nested(f.node) if isinstance(n, ast.If) and any(isinstance(x, ast.Call) and norm(x.func).endswith("NewFilesFoundException") for st in n.body for x in ast.walk(st))]
+        if not lookups or not exc_tests:
+            continue
+        gq = cfg_of(f)
+        counters = {x.id for t_ in exc_tests for x in ast.walk(t_.test) if isinstance(x, ast.Name)}
+        for c in lookups:
+            st = parent(c)
+            if not (isinstance(st, ast.Assign) and len(st.targets) == 1 and isinstance(st.targets[0], ast.Name)):
+                raise AnalysisError(f"{f.loc(c)}: result of the original-entry lookup is not bound to a name")
+            var = st.targets[0].id
+            r12.instance(f, c, f"{f.name}: {var} = {norm(c)[:60]}")
+            bumps = []
+            for n in walk_no_nested(f.node):
+                if isinstance(n, ast.AugAssign) and isinstance(n.target, ast.Name) and n.target.id in counters and isinstance(n.op, ast.Add):
+                    atoms = []
+                    for t, l in gq.control_deps(gq.node_for(n), through_loops=False):
+                        if t.kind == "test":
+                            atoms += atomic_deps(t.ast, l)
+                    if (f"{var} is None", "T") in atoms or (var, "F") in atoms:
+                        bumps.append(n)
+            r12.check(bool(bumps), f, c, f"`{f.name}` looks the original entry of a traversed file up but does not raise the new-files counter ({sorted(counters)}) when there is none: files that were added to the tree are not reported and the command exits 0", construct=f"{f.name}: no new-file count on `{var} is None`")
+    r12.check(True, None, None, "")
+
     # ------------------------------------------------------------------ R3.11
     r11 = report.rule(
         "R3.11",
